@@ -145,7 +145,8 @@ Accept(e) ==
     \*   u(k) = clamp(u(k-1) + K (wp xp + wi xi + wd xd) / (|wp| + |wi| + |wd|)),
     \*   xi = e(k), xp = e(k) - e(k-1), xd = e(k) - 2 e(k-1) + e(k-2); the weights do not move
     [] e.f = "npidx" -> NeuroOK(e, 1, Zero, Zero, Zero)
-    [] e.f = "npidl" -> e.inrange = 1 => LearnOK(e, 1, 0, e.w0, 0, 0, 0)
+    [] e.f = "npidl" -> /\ \A i \in 1..Len(e.steps) : e.steps[i].u >= -(e.lim * 256) /\ e.steps[i].u <= e.lim * 256   \* output limits, always
+                        /\ (e.inrange = 1 => LearnOK(e, 1, 0, e.w0, 0, 0, 0))                                    \* weights inside the logging range
     [] OTHER -> FALSE
 
 TraceInit == l = 1
